@@ -651,6 +651,26 @@ def translation_tie(rep):
     return 'unsupported' not in ans
 
 
+def ambient_answer(case):
+    """One request sequence on a fresh parser object, answered in the helper process of tools/kdv/ambient.py."""
+    return impl_fn(case)
+
+
+def order_cases(rng, tier):
+    """Requests of many configurations on dumps that hold every class of record: BSD-including class lists, subclass-only
+    lists of a helper class WITHOUT a BSD request (inside the claim: no helper class is added then), thread filters, none."""
+    out = [gen_case(rng, reqs=rng.choice(['t', 't', 'tt', 'c', 'k'])) for _ in range(24 if tier == 'quick' else 120)]
+    base = helper_subclass_cases(rng, 12 if tier == 'quick' else 60)
+    cfgs = [([4], []), ([], [0x0301]), ([1, 4], []), ([], [0x040c]), ([], [0x0701, 0x0301]), ([3], []), ([], []), ([7], []),
+            ([], [0x0301, 0x0101])]
+    for i, c in enumerate(base):
+        cl, sb = cfgs[i % len(cfgs)]
+        c = dict(c, cfg={'tid': None, 'classes': list(cl), 'subclasses': list(sb), 'process': None}, stream='order')
+        out.append(c)
+    rng.shuffle(out)
+    return out
+
+
 def correspondence(rep, rng, tier):
     from .. import pipeline as _PL
     _PL.section_e2e(rep, rng, tier, n=(120 if tier == 'quick' else 4000))
@@ -697,6 +717,8 @@ def correspondence(rep, rng, tier):
                 kind_fn=lambda c, g: 'fc=%s fs=%s' % (c['cfg']['classes'], c['cfg']['subclasses']),
                 rule='finding stream (outside the claim): a subclass of DBG_TRACE, or of DBG_FSYSTEM next to a BSD request, '
                      'requested without its class')
+    from .. import ambient
+    ambient.order_section(rep, rng, tier, 'C13', 'kdv.props.C13:ambient_answer', order_cases(rng, tier))
     from .. import cliir
     cliir.section(rep, rng, tier, 'C13', commands=('traces', 'callstacks', 'logs'))   # the glue in front of traces() / callstacks() / logs
 
@@ -714,6 +736,13 @@ def replay(path):
     if r['replay'].get('section') in ('cli-glue', 'cli-pwc-raise', 'cli-decls', 'cli-init', 'cli-formatted'):
         from .. import cliir
         return cliir.replay(r['replay'], 'C13', path)
+    if r['replay'].get('section') == 'request-order':
+        from .. import ambient
+        bad, lines = ambient.replay_order(r['replay'])
+        print('\n'.join(lines))
+        if bad:
+            print(f'VIOLATION property=C13 replay={path}')
+        return 1 if bad else 0
     if r['replay'].get('section') == 'trace-lazy-requests':
         bad = 0
         print('filters:', case['cfg'], ' class lists:', case['lists'], ' shape:', case['shape'])
